@@ -5,7 +5,7 @@
     table is coq/Gen/GenMarkerAccess.v.  Unexported helpers of the package have no rows: what they
     test is attributed to the functions calling them (transitively), so that extracting or
     inlining a helper does not change the table.  [documented_access_table] is the hand-written side:
-    for the fifteen administration endpoints the row is COMPUTED from the documented requirement
+    for the twenty-three endpoints of Marker/Access.v ([all_ops]) the row is COMPUTED from the documented requirement
     table of Marker/Access.v ([documented], transcribed from accessgrant.proto and the spec files),
     the remaining rows (transfers, helper functions, governance-only endpoints) are written out
     with their source.  No proofs in this file. *)
@@ -91,17 +91,116 @@ Definition documented_access_table : list access_row := [
   (* governance-only or authority-aware endpoints of the message server *)
   plain_row "msgServer.AddMarker" [] false true [];
   row_of_op "msgServer.AddNetAssetValues" OAddNav;
-  plain_row "msgServer.ChangeStatusProposal" [] false true [];
+  row_of_op "msgServer.ChangeStatusProposal" OChangeStatus;
   row_of_op "msgServer.GrantAllowance" OGrantAllowance;
-  plain_row "msgServer.RemoveAdministratorProposal" [] false true [];
+  row_of_op "msgServer.RemoveAdministratorProposal" ORemoveAdministrator;
   row_of_op "msgServer.SetAccountData" OSetAccountData;
-  plain_row "msgServer.SetAdministratorProposal" [] false true [];
-  plain_row "msgServer.SetDenomMetadataProposal" [] false true [];
-  plain_row "msgServer.SupplyDecreaseProposal" [] false true [];
-  plain_row "msgServer.SupplyIncreaseProposal" [] false true [];
-  plain_row "msgServer.UpdateForcedTransfer" [] false true [];
+  row_of_op "msgServer.SetAdministratorProposal" OSetAdministrator;
+  row_of_op "msgServer.SetDenomMetadataProposal" OSetMetadataProposal;
+  row_of_op "msgServer.SupplyDecreaseProposal" OSupplyDecrease;
+  row_of_op "msgServer.SupplyIncreaseProposal" OSupplyIncrease;
+  row_of_op "msgServer.UpdateForcedTransfer" OUpdateForcedTransfer;
   plain_row "msgServer.UpdateParams" [] false true [];
   row_of_op "msgServer.UpdateRequiredAttributes" OUpdateReqAttrs;
   row_of_op "msgServer.UpdateSendDenyList" OUpdateDenyList;
-  plain_row "msgServer.WithdrawEscrowProposal" [] false true []
+  row_of_op "msgServer.WithdrawEscrowProposal" OWithdrawEscrow
 ].
+
+(** ** The endpoints of the module: every rpc of `service Msg` (proto/provenance/marker/v1/tx.proto),
+    what decides who may call it, and the rows of the table above that stand in front of it.
+    Sorted by rpc name, like the lists the extractor generates
+    ([generated_marker_rpcs], [generated_marker_endpoints] in Gen/GenMarkerAccess.v). *)
+Inductive ep_kind :=
+| EOp (o : op)      (* an administration endpoint of Marker/Access.v: [decide] / [documented] *)
+| ECreate           (* creates a marker: there is no access list to hold a right on yet; the sender
+                       becomes the manager.  03_messages Msg/AddMarker, Msg/AddFinalizeActivateMarker *)
+| ETransfer         (* MsgTransferRequest: Marker/Authz.v [transfer] *)
+| EIbcTransfer      (* MsgIbcTransferRequest: TRANSFER on the marker (and the source's authz grant
+                       when the administrator is not the source); stated from the source only, the
+                       harness has no IBC channel to run it on *)
+| EModuleGov.       (* module parameters: the governance account; no marker is involved *)
+
+Record endpoint := { ep_rpc : string; ep_kind_of : ep_kind; ep_guards : list string }.
+
+Definition ep (rpc : string) (k : ep_kind) (guards : list string) : endpoint :=
+  {| ep_rpc := rpc; ep_kind_of := k; ep_guards := guards |}.
+
+Definition documented_endpoints : list endpoint := [
+  ep "Activate" (EOp OActivate) ["Keeper.ActivateMarker"];
+  ep "AddAccess" (EOp OAddAccess) ["Keeper.AddAccess"];
+  ep "AddFinalizeActivateMarker" ECreate ["Keeper.AddFinalizeAndActivateMarker"];
+  ep "AddMarker" ECreate ["Keeper.AddMarkerAccount"; "msgServer.AddMarker"];
+  ep "AddNetAssetValues" (EOp OAddNav) ["msgServer.AddNetAssetValues"];
+  ep "Burn" (EOp OBurn) ["Keeper.BurnCoin"];
+  ep "Cancel" (EOp OCancel) ["Keeper.CancelMarker"];
+  ep "ChangeStatusProposal" (EOp OChangeStatus) ["msgServer.ChangeStatusProposal"];
+  ep "Delete" (EOp ODelete) ["Keeper.DeleteMarker"];
+  ep "DeleteAccess" (EOp ODeleteAccess) ["Keeper.RemoveAccess"];
+  ep "Finalize" (EOp OFinalize) ["Keeper.FinalizeMarker"];
+  (* the allowance is paid out of the MARKER's account (feegrant granter = marker address):
+     03_messages Msg/GrantAllowance, ADMIN on the marker *)
+  ep "GrantAllowance" (EOp OGrantAllowance) ["msgServer.GrantAllowance"];
+  ep "IbcTransfer" EIbcTransfer ["Keeper.IbcTransferCoin"];
+  ep "Mint" (EOp OMint) ["Keeper.MintCoin"];
+  ep "RemoveAdministratorProposal" (EOp ORemoveAdministrator) ["msgServer.RemoveAdministratorProposal"];
+  ep "SetAccountData" (EOp OSetAccountData) ["msgServer.SetAccountData"];
+  ep "SetAdministratorProposal" (EOp OSetAdministrator) ["msgServer.SetAdministratorProposal"];
+  ep "SetDenomMetadata" (EOp OSetMetadata) ["Keeper.SetMarkerDenomMetadata"];
+  ep "SetDenomMetadataProposal" (EOp OSetMetadataProposal) ["msgServer.SetDenomMetadataProposal"];
+  ep "SupplyDecreaseProposal" (EOp OSupplyDecrease) ["msgServer.SupplyDecreaseProposal"];
+  ep "SupplyIncreaseProposal" (EOp OSupplyIncrease) ["msgServer.SupplyIncreaseProposal"];
+  ep "Transfer" ETransfer ["Keeper.TransferCoin"];
+  ep "UpdateForcedTransfer" (EOp OUpdateForcedTransfer) ["msgServer.UpdateForcedTransfer"];
+  ep "UpdateParams" EModuleGov ["msgServer.UpdateParams"];
+  ep "UpdateRequiredAttributes" (EOp OUpdateReqAttrs) ["msgServer.UpdateRequiredAttributes"];
+  ep "UpdateSendDenyList" (EOp OUpdateDenyList) ["msgServer.UpdateSendDenyList"];
+  ep "Withdraw" (EOp OWithdraw) ["Keeper.WithdrawCoins"];
+  ep "WithdrawEscrowProposal" (EOp OWithdrawEscrow) ["msgServer.WithdrawEscrowProposal"]
+].
+
+Definition op_eqb (a b : op) : bool :=
+  match a, b with
+  | OMint, OMint | OBurn, OBurn | OWithdraw, OWithdraw | OFinalize, OFinalize | OActivate, OActivate
+  | OCancel, OCancel | ODelete, ODelete | OAddAccess, OAddAccess | ODeleteAccess, ODeleteAccess
+  | OSetMetadata, OSetMetadata | OSetAccountData, OSetAccountData | OUpdateDenyList, OUpdateDenyList
+  | OUpdateReqAttrs, OUpdateReqAttrs | OGrantAllowance, OGrantAllowance | OAddNav, OAddNav
+  | OUpdateForcedTransfer, OUpdateForcedTransfer | OSupplyIncrease, OSupplyIncrease
+  | OSupplyDecrease, OSupplyDecrease | OSetAdministrator, OSetAdministrator
+  | ORemoveAdministrator, ORemoveAdministrator | OChangeStatus, OChangeStatus
+  | OWithdrawEscrow, OWithdrawEscrow | OSetMetadataProposal, OSetMetadataProposal => true
+  | _, _ => false
+  end.
+
+Definition find_row (name : string) (t : list access_row) : option access_row :=
+  find (fun r => String.eqb name (row_func r)) t.
+
+Definition subset_rights (a b : list right) : bool := forallb (fun x => existsb (right_eqb x) b) a.
+
+(** An endpoint is well placed in the table: every guard it names has a row; when it is an
+    administration endpoint, exactly one of these rows is the row computed from the documented
+    requirement of its operation (same manager / authority / whole-supply / any-grant flags, the
+    documented rights among the tested ones). *)
+Definition row_is_of_op (r : access_row) (o : op) : bool :=
+  let d := row_of_op (row_func r) o in
+  subset_rights (row_tests d) (row_tests r) &&
+  Bool.eqb (row_manager r) (row_manager d) && Bool.eqb (row_authority r) (row_authority d) &&
+  Bool.eqb (row_all_supply r) (row_all_supply d) && Bool.eqb (row_any_grant r) (row_any_grant d).
+
+Definition endpoint_ok (t : list access_row) (e : endpoint) : bool :=
+  forallb (fun g => match find_row g t with Some _ => true | None => false end) (ep_guards e) &&
+  negb (match ep_guards e with [] => true | _ => false end) &&
+  match ep_kind_of e with
+  | EOp o => existsb (fun g => match find_row g t with Some r => row_is_of_op r o | None => false end) (ep_guards e)
+  | _ => true
+  end.
+
+(** Every operation of the decision table is reachable through exactly one rpc, and every row of
+    the guard table stands in front of some rpc. *)
+Definition ops_of_endpoints : list op :=
+  flat_map (fun e => match ep_kind_of e with EOp o => [o] | _ => [] end) documented_endpoints.
+Definition count_op (o : op) (l : list op) : nat := List.length (filter (op_eqb o) l).
+Definition endpoints_cover_ops : bool :=
+  forallb (fun o => Nat.eqb (count_op o ops_of_endpoints) 1) all_ops &&
+  forallb (fun o => existsb (op_eqb o) all_ops) ops_of_endpoints.
+Definition rows_all_reachable (t : list access_row) : bool :=
+  forallb (fun r => existsb (fun e => existsb (String.eqb (row_func r)) (ep_guards e)) documented_endpoints) t.
